@@ -1,7 +1,7 @@
 """Token classes the properties enumerate (DESIGN.md section 2). Each token: (text, class)."""
 
 TOKENS = [
-    ("a", "lit"), ("Z", "lit"), ("7", "lit-digit"), ("1", "lit-digit"), ("-", "lit"), (".", "lit-dot"), ("_", "lit"), ("~", "lit"),
+    ("a", "lit"), ("Z", "lit"), ("z", "lit"), ("g", "lit"), ("7", "lit-digit"), ("1", "lit-digit"), ("-", "lit"), (".", "lit-dot"), ("_", "lit"), ("~", "lit"),
     ("!", "subdelim"), ("$", "subdelim"), ("'", "subdelim"), ("(", "subdelim"), (")", "subdelim"), ("*", "subdelim"), (",", "subdelim"), (";", "subdelim"), ("+", "plus"),
     (":", "raw-colon"), ("@", "raw-at"), ("/", "raw-slash"), ("?", "raw-qmark"), ("=", "raw-eq"), ("&", "raw-amp"), ("#", "raw-hash"),
     ("%2F", "esc-slash"), ("%3F", "esc-qmark"), ("%23", "esc-hash"), ("%26", "esc-amp"), ("%3D", "esc-eq"), ("%40", "esc-at"), ("%3A", "esc-colon"),
@@ -21,7 +21,7 @@ for t, c in TOKENS:
     CLASS_OF.setdefault(t, c)
 
 # the core alphabet enumerated exhaustively (one or two representatives per class of the quantifier)
-CORE = ["a", "1", ".", "!", "+", ":", "@", "/", "?", "=", "&", "#", "%2F", "%3F", "%23", "%26", "%3D", "%40", "%3A", "%25", "%2B", "%41", "%34", "%c3%a9",
+CORE = ["a", "z", "1", ".", "!", "+", ":", "@", "/", "?", "=", "&", "#", "%2F", "%3F", "%23", "%26", "%3D", "%40", "%3A", "%25", "%2B", "%41", "%34", "%c3%a9",
         "é", " ", "%20", "%", "%4", "%zz", "%E9", "%E2%82", "%00", "%0A", "%7F", "%C2%80", "%2541"]
 
 
